@@ -3,9 +3,12 @@ package c17
 
 import (
 	"bytes"
+	"context"
 	"errors"
 	"fmt"
+	"io"
 	"math"
+	"os"
 	"reflect"
 	"sort"
 	"strconv"
@@ -98,7 +101,13 @@ type Case struct {
 	Calls   []Call `json:"calls"`
 	CONVFMT string `json:"convfmt"`
 	AwkFunc string `json:"awk_func,omitempty"` // name of an AWK-defined function interleaved in name order (may shadow a native)
+	ErrKind int    `json:"err_kind,omitempty"` // which error value a failing function returns: 0 its own sentinel, else one of wellKnownErrs (values the interpreter itself gives a meaning to elsewhere)
+	Where   int    `json:"where,omitempty"`    // 0 the calls run in a rule body, 1 in a function called from a pattern, 2 in END, 3 in BEGIN
 }
+
+// error values that mean something to an interpreter loop when they come from its own input layer; coming from a
+// native function they are just errors: the run must end with exactly that error
+var wellKnownErrs = []error{nil, io.EOF, io.ErrUnexpectedEOF, context.Canceled, context.DeadlineExceeded, os.ErrNotExist, io.ErrClosedPipe, errors.New("exit"), errors.New("next")}
 
 // ---------------------------------------------------------------------------
 
@@ -168,6 +177,10 @@ var nameHeads = []string{"a", "m", "z", "B", "_", "n"}
 
 func genCase(t *rapid.T) Case {
 	c := Case{CONVFMT: rapid.SampledFrom([]string{"%.6g", "%.6g", "%.2f", "%.3g"}).Draw(t, "convfmt")}
+	if rapid.IntRange(0, 2).Draw(t, "wk") == 0 {
+		c.ErrKind = rapid.IntRange(1, len(wellKnownErrs)-1).Draw(t, "errkind")
+	}
+	c.Where = rapid.SampledFrom([]int{0, 0, 0, 1, 2, 3}).Draw(t, "where")
 	nsig := rapid.IntRange(1, 4).Draw(t, "nsig")
 	used := map[string]bool{}
 	for i := 0; i < nsig; i++ {
@@ -424,7 +437,7 @@ func (s *sentinel) Error() string { return fmt.Sprintf("native failure %d", s.id
 func run(x *h.Ctx, c Case) string {
 	var log []string
 	funcs := map[string]any{}
-	errs := map[int]*sentinel{}
+	errs := map[int]error{}
 	for i, s := range c.Sigs {
 		i, s := i, s
 		var in []reflect.Type
@@ -444,6 +457,9 @@ func run(x *h.Ctx, c Case) string {
 		}
 		ft := reflect.FuncOf(in, out, s.Variadic)
 		errs[i] = &sentinel{i}
+		if c.ErrKind > 0 && c.ErrKind < len(wellKnownErrs) {
+			errs[i] = wellKnownErrs[c.ErrKind]
+		}
 		fn := reflect.MakeFunc(ft, func(args []reflect.Value) []reflect.Value {
 			var rec []string
 			for j, a := range args {
@@ -492,7 +508,17 @@ func run(x *h.Ctx, c Case) string {
 	var src strings.Builder
 	var fields []string
 	fieldNo := 0
-	src.WriteString("BEGIN { CONVFMT = " + awk.QuoteStr(c.CONVFMT) + "; FS = \"\\001\" }\n{\n")
+	src.WriteString("BEGIN { CONVFMT = " + awk.QuoteStr(c.CONVFMT) + "; FS = \"\\001\" }\n")
+	switch c.Where {
+	case 1:
+		src.WriteString("function calls_(   r_) {\n")
+	case 2:
+		src.WriteString("END {\n")
+	case 3:
+		src.WriteString("BEGIN { $0 = ENVIRON[\"REC\"]\n")
+	default:
+		src.WriteString("{\n")
+	}
 	var wantLog, wantOut []string
 	failedAt := -1
 	for ci, call := range c.Calls {
@@ -549,7 +575,12 @@ func run(x *h.Ctx, c Case) string {
 		}
 		wantOut = append(wantOut, fmt.Sprintf("result %d <%s> %s", ci, res, isNum))
 	}
-	src.WriteString("  print \"done\"\n}\n")
+	src.WriteString("  print \"done\"\n")
+	if c.Where == 1 {
+		src.WriteString("  return 1\n}\ncalls_() { n_++ }\n")
+	} else {
+		src.WriteString("}\n")
+	}
 	if c.AwkFunc != "" {
 		fmt.Fprintf(&src, "function %s(a, b, c, d, e, f, g, h) { return \"awk\" }\nEND { print %s(1) }\n", c.AwkFunc, c.AwkFunc)
 	}
@@ -564,7 +595,7 @@ func run(x *h.Ctx, c Case) string {
 		return fmt.Sprintf("a program calling valid native functions with no more arguments than parameters is rejected: %v\n%s\nsignatures: %+v", err, src.String(), c.Sigs)
 	}
 	var out bytes.Buffer
-	_, runErr := interp.ExecProgram(prog, &interp.Config{Stdin: strings.NewReader(strings.Join(fields, "\x01") + "\n"), Output: &out, Error: &out, Funcs: funcs, Environ: []string{}})
+	_, runErr := interp.ExecProgram(prog, &interp.Config{Stdin: strings.NewReader(strings.Join(fields, "\x01") + "\n"), Output: &out, Error: &out, Funcs: funcs, Environ: []string{"REC", strings.Join(fields, "\x01")}})
 	describe := func() string {
 		return fmt.Sprintf("program:\n%ssignatures: %+v\ninput fields: %q", src.String(), c.Sigs, fields)
 	}
@@ -572,7 +603,7 @@ func run(x *h.Ctx, c Case) string {
 		if runErr == nil {
 			return fmt.Sprintf("a native function returned a non-nil error but the run reported none\n%s", describe())
 		}
-		if runErr != error(errs[failedAt]) && !errors.Is(runErr, errs[failedAt]) {
+		if runErr != errs[failedAt] && !errors.Is(runErr, errs[failedAt]) {
 			return fmt.Sprintf("the run did not return exactly the error the native function returned: got %v (%T)\n%s", runErr, runErr, describe())
 		}
 	} else if runErr != nil {
